@@ -11,6 +11,7 @@ import FuraxModel.Landscape
 import FuraxModel.Config
 import FuraxModel.Index
 import FuraxModel.Einsum
+import FuraxModel.Diagonal
 namespace Furax
 open SExp
 
@@ -201,10 +202,27 @@ def handleEinsum (cmd : String) (args : List SExp) : Option SExp :=
     | .error e => some (replyErr e)
   | _, _ => none
 
+/-- `(diagonal STRICT (vshape) (vals) SPEC (xshape) (x))` with SPEC = `(scalar a)` | `(seq a…)`;
+`(pinv (vals))` -/
+def handleDiagonal (cmd : String) (args : List SExp) : Option SExp :=
+  match cmd, args with
+  | "diagonal", [strict, vsh, vals, spec, xsh, xs] => do
+    let sp : Diagonal.AxisSpec ← match spec with
+      | list [atom "scalar", a] => a.int?.map .scalar
+      | list (atom "seq" :: l) => (l.mapM SExp.int?).map .seq
+      | _ => none
+    let v : Tensor Rat := ⟨← vsh.nats?, ← vals.rats?⟩
+    let x : Tensor Rat := ⟨← xsh.nats?, ← xs.rats?⟩
+    match Diagonal.apply (← strict.bool?) v sp x with
+    | .ok y => some (list [atom "ok", ofNats y.shape, ofRats y.data])
+    | .error e => some (replyErr e)
+  | "pinv", [vals] => do some (list [atom "ok", ofRats (Diagonal.pinvValues (← vals.rats?))])
+  | _, _ => none
+
 def handle (line : String) : String :=
   match SExp.parse line with
   | some (list (atom cmd :: args)) =>
-    match ((handleLevelA cmd args).orElse (fun _ => handleStokes cmd args)).orElse (fun _ => handleToeplitz cmd args) |>.orElse (fun _ => handleAxes cmd args) |>.orElse (fun _ => handleLandscape cmd args) |>.orElse (fun _ => handleConfig cmd args) |>.orElse (fun _ => handleIndex cmd args) |>.orElse (fun _ => handleEinsum cmd args) with
+    match ((handleLevelA cmd args).orElse (fun _ => handleStokes cmd args)).orElse (fun _ => handleToeplitz cmd args) |>.orElse (fun _ => handleAxes cmd args) |>.orElse (fun _ => handleLandscape cmd args) |>.orElse (fun _ => handleConfig cmd args) |>.orElse (fun _ => handleIndex cmd args) |>.orElse (fun _ => handleEinsum cmd args) |>.orElse (fun _ => handleDiagonal cmd args) with
     | some r => r.toStr
     | none => "(bad-request)"
   | _ => "(bad-request)"
